@@ -13,6 +13,7 @@ from specs.dbmodel import DBWorld, BASE, S1, S2, S3, S_MISSING, S_DIR, S_LINK, S
 
 S_NEW = b'9.000000-77-900-33188-0-0'        # stamp of a file created by this job (fresh inode, fresh mtime)
 S_NEW2 = b'9.500000-78-901-33188-0-0'
+S_DLINK = b'8.000000-5-557-41471-0-0'     # a symbolic link whose target does not exist (yet): lstat sees it, stat does not
 S_OLDER = b'0.500000-78-901-33188-0-0'     # a file written by the script with an mtime older than anything recorded (cp -p)
 
 
@@ -88,6 +89,12 @@ class BuildWorld(DBWorld):
         self.ev('stat', name=bytes(name).decode('latin-1'), follow=follow, result=None if st is None else bytes(st).decode())
         if st is None:
             return err(io_error('NotFound'))
+        if tuple(st) == tuple(S_DLINK):
+            if follow:
+                return err(io_error('NotFound'))
+            md = self.metadata(name, st)
+            md.data['is_symlink'] = True
+            return ok(md)
         if tuple(st) == tuple(S_LINK):
             if follow:
                 return ok(self.metadata(name, S_LINK_TARGET))
